@@ -883,3 +883,11 @@ Definition table_row (k : kind) : option (N * nat * N * bool) :=
   find (fun r => N.eqb (fst (fst (fst r))) (kind_code k)) gen.Tables.op_table.
 Theorem priorities_are_translated : forall k : kind, op_row k = table_row k.
 Proof. destruct k; vm_compute; reflexivity. Qed.
+
+(* `to` binds loosest, for every arithmetic operator next to it: "x op y to u" is (x op y) to u, and "x to u op y" is x to (u op y) *)
+Theorem cast_binds_loosest : forall w a t w' y wb tt wa u,
+  canon levels4 (Leaf 0, mkin 0 (prios (TCons w a t w' y (TTo wb tt wa u TNil))))
+    = Climb.Node (Climb.Node (Leaf 0) [((aprio a, 1), Leaf 1)]) [((1, 2), Leaf 2)] /\
+  canon levels4 (Leaf 0, mkin 0 (prios (TTo wb tt wa u (TCons w a t w' y TNil))))
+    = Climb.Node (Leaf 0) [((1, 1), Climb.Node (Leaf 1) [((aprio a, 2), Leaf 2)])].
+Proof. intros. destruct a; split; reflexivity. Qed.
